@@ -23,6 +23,23 @@ def gen(rng, n):
             d["KEEPALIVE_MS"] = 300
         if rng.chance(1, 3):
             d["CID_LEN"] = rng.choice([4, 20])
+        if i % 3 == 2:
+            # the peer's process restarts while this side is closing: a genuine stateless reset drains
+            # the connection early; whatever timer was armed for the closing period must not fire later
+            d.pop("CLOSE_ON_TIMER", None)
+            d.pop("CLOSE_ON_TIMER_N", None)
+            d.pop("CID_LIFETIME_MS", None)
+            d["CLOSER"] = 0
+            d["STREAM_BYTES"] = 100000
+            d["WRITE_CHUNK"] = 100000
+            d["READ_MAX"] = 100000
+            d["NBIDI"] = 1
+            d["DELAY_MIN"] = d["DELAY_MAX"] = rng.choice([10000, 30000])
+            t = 2 * d["DELAY_MIN"] * rng.range(4, 8)
+            d["CLOSE_AT"] = t
+            d["FORGET_AT"] = t + rng.choice([1000, 20000])
+            d["REPLAY"] = rng.choice([300, 600])
+            d["IDLE_MS"] = 1000
         d["TWIN"] = 1
         cases.append(S.case_of(d))
     return cases
